@@ -11,7 +11,8 @@ EXPLANATION = (
     "reaches Storage::with_data -> read_records (validation) and the file-backed ones reach FileStorage::new (recovery).")
 DECIDED = ["R01a-g (log protocol, shared with C01)",
            "R02a creation / conversion is one storage transaction",
-           "R02b all constructors go through recovery and record validation"]
+           "R02b all constructors go through recovery and record validation",
+           "R03a-c and R04a-d (shared with C03 / C04)"]
 UNDECIDED = ["mutual consistency of every committed state produced by query histories (C03's runtime half)",
              "panic-freedom of the open path is C07's rule"]
 
